@@ -304,12 +304,56 @@ func checkOrderedMapCoupling(r *Reporter, p *Prog) {
 			r.Fail("omap/iteration-order", key, p.posStr(fd.Pos()), fmt.Sprintf("must start at %s and follow %s; found start %v step %v", row.start, row.step, starts, steps))
 		}
 	}
+	// ---- a removed element keeps its own links
+	// ForEach/ForEachReverse release the lock between steps and continue from the pointer of the
+	// element they visited last; if that element was deleted meanwhile (by the consumer or by
+	// another goroutine) its own next/prev must still lead back into the chain.
+	stepwise := 0
+	for _, m := range []string{"ForEach", "ForEachReverse"} {
+		if src, fd := srcOf(p, om, "OrderedMap", m); fd != nil && (strings.Contains(src, "currentEntry=currentEntry.next") || strings.Contains(src, "currentEntry=currentEntry.prev")) && strings.Count(src, ".RLock()") >= 2 {
+			stepwise++
+		}
+	}
+	if fd := p.FuncDecl(om, "OrderedMap", "Delete"); fd == nil {
+		r.Unresolved("omap/removed-element-keeps-links", om+".OrderedMap.Delete", "method not found")
+	} else if stepwise > 0 {
+		var elem types.Object
+		ast.Inspect(fd.Body, func(n ast.Node) bool {
+			if as, ok := n.(*ast.AssignStmt); ok && len(as.Rhs) == 1 && len(as.Lhs) == 2 && strings.HasSuffix(exprKey(as.Rhs[0]), ".dictionary.Get(key)") {
+				elem = objOfIdent(info, as.Lhs[0])
+			}
+			return true
+		})
+		var bad []string
+		ast.Inspect(fd.Body, func(n ast.Node) bool {
+			if as, ok := n.(*ast.AssignStmt); ok {
+				for _, l := range as.Lhs {
+					if se, ok := ast.Unparen(l).(*ast.SelectorExpr); ok && (se.Sel.Name == "next" || se.Sel.Name == "prev") && elem != nil && objOfIdent(info, se.X) == elem {
+						bad = append(bad, p.posStr(as.Pos())+" "+exprKey(l)+" = "+exprKey(as.Rhs[0]))
+					}
+				}
+			}
+			return true
+		})
+		switch {
+		case elem == nil:
+			r.Fail("omap/removed-element-keeps-links", om+".OrderedMap.Delete", p.posStr(fd.Pos()), "the removed element (dictionary.Get(key)) was not found")
+		case len(bad) > 0:
+			r.Fail("omap/removed-element-keeps-links", om+".OrderedMap.Delete", p.posStr(fd.Pos()), "Delete overwrites the removed element's own links ("+bad[0]+"): an iteration that is standing on this element (ForEach releases the lock between steps) loses every later entry", bad...)
+		default:
+			r.Pass("omap/removed-element-keeps-links", om+".OrderedMap.Delete", p.posStr(fd.Pos()), fmt.Sprintf("only neighbours' links and head/tail are rewritten; %d stepwise iterator(s) rely on it", stepwise))
+		}
+	} else {
+		r.Pass("omap/removed-element-keeps-links", om+".OrderedMap.Delete", p.posStr(fd.Pos()), "no stepwise iterator: rule not applicable")
+	}
 }
 
 // checkSetProtocol: applyMutex protocol and exact diffs of ds.set.
 func checkSetProtocol(r *Reporter, p *Prog) {
 	const pkg = "ds"
 	info := p.Pkg(pkg).TypesInfo
+	// every set operation is one section on applyMutex (Compute/Replace: evaluate and apply together)
+	checkAtomicOperations(r, p, "set/one-apply-section", pkg, "set", "applyMutex")
 	// mutation calls on the underlying ordered map made from set methods
 	isMutation := func(c *ast.CallExpr) (string, bool) {
 		se, ok := ast.Unparen(c.Fun).(*ast.SelectorExpr)
